@@ -241,7 +241,11 @@ func (im indexManager) searchParallel(
 	}
 	// ---------------------------
 	if len(queries) == 1 {
-		// Shortcut, no merging required
+		// Shortcut, no merging required but a composite query still promises
+		// hybrid score order which differs from the index order for negative weights
+		slices.SortStableFunc(results[0], func(a, b models.SearchResult) int {
+			return cmp.Compare(b.HybridScore, a.HybridScore)
+		})
 		return sets[0], results[0], nil
 	}
 	// ---------------------------
